@@ -67,7 +67,7 @@ func checkC15(c *Ctx) {
 		"K-C15-suites: key, IV and MAC lengths of every cipher-suite row fit its constructors; cipher constructors return CBC modes or RC4 only",
 		"K-C15-version: mutualVersion accepts only implemented versions and Conn.vers is only ever assigned such a version",
 		"K-C15-finhash: every finishedHash that can be used below TLS 1.2 (GMSSL included) has its MD5 pair",
-		"B-IDX: index/slice sites of the key-exchange message parsers and readHandshake (handshake message unmarshalers are under C18)")
+		"B-IDX: index/slice sites of the key-exchange message parsers, readHandshake and the unmarshal method of every handshake message")
 	c.NotDec = append(c.NotDec, "liveness against a silent peer (depends on the transport's deadlines)", "bounds inside the record layer's block buffers (conn.go block/halfConn arithmetic)", "the order of handshake messages beyond the per-step type checks (follows from the straight-line flights)")
 	getFX(c)
 	scope := c15Scope(c)
@@ -91,8 +91,26 @@ func checkC15(c *Ctx) {
 			c.Missing("B-IDX", "gmtls."+n, "peer message parser", "not found")
 		}
 	}
+	// ... and the unmarshal methods of every handshake message (the same sites are obligations of C18; a crash here
+	// is a crash of the handshake, so they are obligations of this property too)
+	nUn := 0
+	for _, f := range c.P.RepoFuncs("gmtls") {
+		if f.Name() == "unmarshal" && f.Signature.Recv() != nil && strings.HasSuffix(f.Signature.Recv().Type().String(), "Msg") && !strings.HasSuffix(c.P.relFile(f.Pos()), "_test.go") {
+			parsers = append(parsers, f)
+			nUn++
+		}
+	}
+	if nUn < 12 {
+		c.Undecided("B-IDX", "gmtls", "handshake message unmarshal methods", fmt.Sprintf("only %d found", nUn), token.NoPos)
+	}
 	lbOvfMode = true
+	twoPass := "second pass of a two-pass parse: the first loop walked the same slice from the same start with the same length arithmetic, rejected every inconsistent length and counted the entries; the second loop repeats exactly that many steps (a relation between two loops, outside the per-site prover)"
 	st := bidx(c, "B-IDX", parsers, map[string]string{
+		"B-IDX|(*gmtls.certificateMsg).unmarshal|index ?phi1[0] #2":                                                                                                                 twoPass,
+		"B-IDX|(*gmtls.certificateMsg).unmarshal|index ?phi1[1] #2":                                                                                                                 twoPass,
+		"B-IDX|(*gmtls.certificateMsg).unmarshal|index ?phi1[2] #2":                                                                                                                 twoPass,
+		"B-IDX|(*gmtls.certificateMsg).unmarshal|slice ?phi4[3:or(idx(?phi3,2),shl(idx(?phi1,0),0x10),shl(idx(?phi2,1),0x8))+3] #1":                                                 twoPass,
+		"B-IDX|(*gmtls.certificateMsg).unmarshal|slice ?phi4[or(idx(?phi3,2),shl(idx(?phi1,0),0x10),shl(idx(?phi2,1),0x8))+3:] #2":                                                  twoPass,
 		"B-IDX|(*gmtls.ecdheKeyAgreement).processClientKeyExchange|slice ?*ssa.MakeSlice[-1*len(call:(*math/big.Int).Bytes(extract0(call:invoke crypto/elliptic.Curve.ScalarMult(*": "x is a coordinate returned by Curve.ScalarMult, a field element below p, so len(x.Bytes()) <= (BitSize+7)/8 (a fact about curve arithmetic, not about the input)",
 		"B-IDX|(*gmtls.Conn).readHandshake|index call:(*bytes.Buffer).Next(field:hand(c),add(0x4,*":                                                                                 "the preceding loop reads records until c.hand.Len() >= 4+n, and bytes.Buffer.Next(4+n) then returns exactly that many bytes (the prover does not model the buffer's length)",
 	})
